@@ -54,6 +54,8 @@ func main() {
 		exe, _ := os.Executable()
 		vdir = filepath.Dir(filepath.Dir(exe))
 	}
+	verifDir = vdir
+	rules.VerifDir = vdir
 	if *replay != "" {
 		base := filepath.Base(*replay)
 		parts := strings.Split(base, ".")
@@ -174,5 +176,15 @@ func runProperty(id, tier, vdir string, known *core.KnownFindings, seed int,
 			res.Undecided = append(res.Undecided, c.Undecided...)
 		}
 	}
+	if tier == "thorough" && len(res.Undecided) == 0 {
+		sv := selfValidate(id, verifDir)
+		res.Extra["self_validation"] = sv
+		if ms, ok := sv["missed"].([]string); ok && len(ms) > 0 {
+			fmt.Printf("SELF-VALIDATION property=%s: recorded changes no longer caught: %v (information; the verdict on /repo is unaffected)\n", id, ms)
+		}
+	}
 	return res.Finish(vdir, known, seed)
 }
+
+// verifDir is the /verif directory (known findings, seeded corpus), as opposed to the output directory.
+var verifDir string
